@@ -8,6 +8,8 @@ The rebuilt node of a node of `t` has
   `S_IFLNK | 0777` (`mknode` ignores a link's permission bits);
 * the same link target / device number; for a regular file the input location `<path>` or `<unpack-root>/<path>`;
 * `link_count` 1, for a directory 2 + the number of its children that were described;
+* no node is a hard link (`FLAG_LINK_IS_HARD`): `rdsquashfs --describe` prints every name of a hard-link group as a
+  `file` line of its own, never a `link` line — the names of a group come back as independent regular files;
 * the modification time of `fstree_defaults_t` (a listing carries no time stamps);
 and its children are the rebuilt children of the node, inserted one after the other with `insert_sorted` (for
 pairwise different names the result is the list sorted by `strcmp`, whatever the order of insertion — a fact about
@@ -57,6 +59,16 @@ def Distinct : Tree → Prop
 def DistinctF : List Tree → Prop
   | [] => True
   | t :: ts => Distinct t ∧ DistinctF ts
+end
+
+mutual
+/-- no directory is nested deeper than SQFS_MAX_DIR_NESTING (`k` = depth of the node, root = 0) — true of every tree the
+readers hand out (they refuse to descend further) -/
+def Shallow (k : Nat) : Tree → Prop
+  | .mk _ node children => (node.kind = .dir → k ≤ sqfsMaxDirNesting) ∧ ShallowF (k + 1) children
+def ShallowF (k : Nat) : List Tree → Prop
+  | [] => True
+  | t :: ts => Shallow k t ∧ ShallowF k ts
 end
 
 end Sqfs.QuoteFs
